@@ -1154,3 +1154,46 @@ mod tests {
         assert_eq!(sent, blocks);
     }
 }
+
+/// Verification hooks: thin wrappers around the private block functions of this module.
+#[cfg(feature = "verif")]
+pub mod verif {
+    use super::*;
+
+    pub use super::config::{MAX_BATCH_SIZE, MAX_MESSAGE_SIZE};
+
+    /// [`super::block_to_response`] on a received `Block { prefix, data }`.
+    pub fn block_to_response(peer: &PeerId, prefix: Vec<u8>, data: Vec<u8>) -> Option<ResponseType> {
+        super::block_to_response(peer, schema::bitswap::Block { prefix, data })
+    }
+
+    /// [`super::extract_next_batch_limited`]; the drained batch is collected.
+    pub fn extract_next_batch(
+        blocks: &mut VecDeque<(Cid, Vec<u8>)>,
+        max_batch_size: usize,
+        max_message_size: usize,
+    ) -> Option<Vec<(Cid, Vec<u8>)>> {
+        super::extract_next_batch_limited(blocks, max_batch_size, max_message_size)
+            .map(|batch| batch.collect())
+    }
+
+    /// [`super::extract_next_batch`] as called by `send_response` (shipped message limit).
+    pub fn extract_next_batch_default(
+        blocks: &mut VecDeque<(Cid, Vec<u8>)>,
+        max_batch_size: usize,
+    ) -> Option<Vec<(Cid, Vec<u8>)>> {
+        super::extract_next_batch(blocks, max_batch_size).map(|batch| batch.collect())
+    }
+
+    /// [`super::blocks_message`].
+    pub fn blocks_message(blocks: Vec<(Cid, Vec<u8>)>) -> Option<(Bytes, usize)> {
+        super::blocks_message(blocks)
+    }
+
+    /// The `(prefix, data)` payload entries of an encoded Bitswap message (prost decoder of
+    /// the crate's schema), `None` if it does not decode.
+    pub fn decode_payload(message: &[u8]) -> Option<Vec<(Vec<u8>, Vec<u8>)>> {
+        let message = schema::bitswap::Message::decode(message).ok()?;
+        Some(message.payload.into_iter().map(|block| (block.prefix, block.data)).collect())
+    }
+}
